@@ -209,19 +209,40 @@ func VH_C15_store(caseID int) {
 			return
 		}
 		m := w.check(sess, present)
-		m = w.op(sess, m, vChoice("op"+ss, 6), ss, sess.Destroy)
+		op1 := vChoice("op"+ss, 6)
+		rotated := op1 >= 3
+		m = w.op(sess, m, op1, ss, sess.Destroy)
 		if m != nil {
 			vAssert(sess.Save() == nil, "save")
 			w.remember(sess.ID(), m)
 			// a second operation on the saved session in the same request
 			if step+2 < k+1 && step < 2 {
 				if op2 := vChoice("op2"+ss, 4); op2 > 0 {
+					rotated = true
 					m = w.op(sess, m, op2+2, ss+"b", sess.Destroy)
 					if m != nil {
 						vAssert(sess.Save() == nil, "save2")
 						w.remember(sess.ID(), m)
 					}
 				}
+			}
+		}
+		// a second lookup in the same request sees the same session (what it should see after the id
+		// was rotated in this very request is not specified: left out)
+		if m != nil && !rotated && vChoice("again"+ss, 2) == 1 {
+			vReach("second-get")
+			sess2, err2 := store.Get(c)
+			vAssert(err2 == nil, "second-get")
+			if err2 == nil {
+				vAssert(sess2.ID() == sess.ID(), "second-get-same-id")
+				vAssert(sess2.Fresh() == sess.Fresh(), "second-get-same-freshness")
+				for key, want := range m.data {
+					got, _ := sess2.Get(key).(string)
+					vAssert(got == want, "second-get-same-data")
+				}
+				vAssert(sess2.Save() == nil, "second-save")
+				w.remember(sess2.ID(), m)
+				sess2.Release()
 			}
 		}
 		sess.Release()
